@@ -69,3 +69,54 @@ func LineSpan(line []rune, idx, indent int) (x, y int) {
 
 	return cursorX, cursorY
 }
+
+// ClearWrapped returns a line in which each character too wide for what is
+// left of its terminal row (a double-width one on the last column) is preceded
+// by the sequence clearing the end of that row: the terminal moves such a
+// character to the next row whole, and leaves what was on the last column.
+// The indent is the column on which the line starts.
+func ClearWrapped(line string, indent int) string {
+	termWidth := term.GetWidth()
+	if termWidth < 2 {
+		return line
+	}
+
+	var cleared strings.Builder
+
+	column := indent % termWidth
+
+	for len(line) > 0 {
+		// Escape sequences take no column.
+		if line[0] == '\x1b' || line[0] == '\xc2' {
+			if seq := color.FirstSequence(line); seq > 0 {
+				cleared.WriteString(line[:seq])
+				line = line[seq:]
+
+				continue
+			}
+		}
+
+		cluster, rest, width, _ := uniseg.FirstGraphemeClusterInString(line, -1)
+		line = rest
+
+		switch {
+		case width == 0:
+		case column+width > termWidth && width <= termWidth:
+			if column < termWidth {
+				cleared.WriteString(term.ClearLineAfter)
+			}
+
+			column = width
+		default:
+			if column >= termWidth {
+				column = 0
+			}
+
+			column += width
+		}
+
+		cleared.WriteString(cluster)
+	}
+
+	return cleared.String()
+}
